@@ -140,6 +140,7 @@ CHECKS = {
             {"pkg": "kvx", "run": "^TestC17_Content$", "quick": 3000, "thorough": 320000},
             {"pkg": "leaderx", "run": "^TestC17_Stream$", "quick": 800, "thorough": 60000},
             {"pkg": "clientx", "run": "^TestC17_ClientNotifications$", "quick": 48, "thorough": 1600, "shards": {"quick": 8, "thorough": 16}, "shrinktime": "30s"},
+            {"pkg": "e2ex", "run": "^TestC17_E2E$", "quick": 160, "thorough": 6000, "shards": {"quick": 8, "thorough": 16}},
         ],
         "floors": {"trim_removed": 0.08, "resumed_from_last_seen": 0.05},
         "rule": "rapid state machine over a real kv.DB with notifications enabled: generated write requests (puts+deletes of one "
@@ -149,7 +150,7 @@ CHECKS = {
                 "timestamp, and content equal to the model's net effect of the request (keys written with resulting "
                 "version id and created/modified type, removed keys covered by a delete or range entry, nothing for "
                 "untouched or internal keys); after a trim every batch with timestamp > now-retention is still served. "
-                "Non-trivial: an interior resume after a reopen, or a trim that removed something. Second generator (TestC17_Stream, leaderx): a real RF=1 leaderController with notifications enabled; rapid state machine of writes (generated requests and no-op requests), up to 4 GetNotifications subscribers opened 'from now' or after a drawn offset, subscriber reconnects from the last offset seen, and up to 2 leader restarts (close, reopen, next term) after which every subscriber reconnects from what it saw. Oracle: each subscriber receives exactly the batches of offsets start+1, start+2, ... in order (no gap, duplicate or reordering across reconnects and terms), each batch matches the model's net effect of the request at that offset, a live stream has delivered everything up to the log head within 10 s, a closed leader ends its streams. Non-trivial there: a subscriber resumed at least once and >=2 writes. Third generator (TestC17_ClientNotifications, clientx): the real client library's notification manager (oxia/notifications.go) against a harness server that behaves like the leader's GetNotifications (positioning batch for 'from now', then every batch after the start offset), 1-3 shards, 0-2 batches committed before the subscription, then a script of commits (0-3 keys), up to 2 scripted stream ends and pauses around the client's 1 s reconnect backoff. Oracle: the application channel delivers, per shard, every notification of every batch committed after the subscription was positioned, batch after batch, exactly once; Close() closes the channel. Non-trivial there: a stream ended and was resumed, and something was due.",
+                "Non-trivial: an interior resume after a reopen, or a trim that removed something. Second generator (TestC17_Stream, leaderx): a real RF=1 leaderController with notifications enabled; rapid state machine of writes (generated requests and no-op requests), up to 4 GetNotifications subscribers opened 'from now' or after a drawn offset, subscriber reconnects from the last offset seen, and up to 2 leader restarts (close, reopen, next term) after which every subscriber reconnects from what it saw. Oracle: each subscriber receives exactly the batches of offsets start+1, start+2, ... in order (no gap, duplicate or reordering across reconnects and terms), each batch matches the model's net effect of the request at that offset, a live stream has delivered everything up to the log head within 10 s, a closed leader ends its streams. Non-trivial there: a subscriber resumed at least once and >=2 writes. Third generator (TestC17_ClientNotifications, clientx): the real client library's notification manager (oxia/notifications.go) against a harness server that behaves like the leader's GetNotifications (positioning batch for 'from now', then every batch after the start offset), 1-3 shards, 0-2 batches committed before the subscription, then a script of commits (0-3 keys), up to 2 scripted stream ends and pauses around the client's 1 s reconnect backoff. Oracle: the application channel delivers, per shard, every notification of every batch committed after the subscription was positioned, batch after batch, exactly once; Close() closes the channel. Non-trivial there: a stream ended and was resumed, and something was due. Fourth generator (TestC17_E2E, e2ex): the end-to-end run described under C20 with a GetNotifications subscription open from the start: at the end the application must have received, per key, exactly the changes the model computed (type and version id; one range notification per shard a delete-range was applied on), in order for keys that live on one shard, also across the server restart.",
         "assumptions": ["DB level: stream delivery over a leader and across leader changes is checked by the leaderx/clusterx engines when built",
                         "a put and a later range delete covering it in one request: both entries are accepted (operation order is documented)"],
     },
